@@ -496,7 +496,9 @@ func agentsCmd(out *cq.Out, seed uint64, tier string) {
 					if obs == "alert" {
 						out.Violate("C19:auditor-false-alert", fmt.Sprintf("the auditor raised an alert on data it should accept [%s]: %.200s", tc.name, alerts[0]), desc)
 					}
-				} else if tc.class == "aud" || tc.class == "aud+mon" {
+				} else if (tc.class == "aud" || tc.class == "aud+mon") && !(tc.answer != nil && (first.Snapshot.Version == 0 || first.Snapshot.Version >= cur)) {
+					// (a proof for version 0, or for the newest version, carries entries the verifier never reads: altering
+					// one of those in the log's answer changes nothing that is checked - only the re-verification decides there)
 					if obs == "quiet" {
 						out.Violate("C19:auditor-missed-alteration", fmt.Sprintf("the auditor raised no alert although what it checks was altered [%s]", tc.name), desc)
 					}
